@@ -105,6 +105,8 @@ SEEDS = {
  "S36-c04-skip-lower-neighbour-test-for-vertical": dict(prop="C04", origin="independent sub-agent",
     change="subdivide: a vertical segment entering the sweep line is not tested against a non-vertical lower neighbour",
     needs="the lower end of a vertical edge of one operand lying on a non-vertical edge of the other, one of the edges meeting there having been split earlier at a non-representable point (small integer lattice, arbitrary slopes)"),
+ "S37-c08-difference-subject-transition-negation": dict(prop="C08", origin="independent sub-agent (same change as S33/S34, found a third time; its demo shows the transposition asymmetry)",
+    change="as S33", needs="as S33; after transposing the axes the pieces lie side by side and the result is correct, so the result does not commute with the transposition"),
  "S27-c06-empty-clipping-early-return": dict(prop="C06", origin="independent sub-agent",
     change="boolean_operation: early return of the subject when the clipping operand has no polygons, regardless of the operation",
     needs="intersection with an empty MultiPolygon on the right-hand side"),
